@@ -170,7 +170,7 @@ def main():
     # ---- part 2: Reed-Frost / discrete SIS kernel, exact ------------------------------------
     pa, pb = 1, 2
     for sis, sims in ((False, ["basic_discrete_SIR", "percolation_based_discrete_SIR"]), (True, ["basic_discrete_SIS"])):
-        for n in ((3,) if chk.tier == "quick" else (3, 4)):
+        for n in (3, 4):
             kres = emit_kernel(n, pa, pb, sis)
             chk.add_tlc("DiscreteEpi kernel N=%d p=%d/%d %s" % (n, pa, pb, "SIS" if sis else "SIR"), kres)
             if kres.violation:
